@@ -125,3 +125,110 @@ Section WithH.
     cbn [bind]. rewrite LP. reflexivity.
   Qed.
 End WithH.
+
+(* ---------- from the reader's step to the whole read ---------- *)
+
+Section WholeRead.
+  Variable H : hashid -> bytes -> bytes -> bytes.
+
+  (* the record loop of one section, n records starting at index i0 *)
+  Fixpoint get_section_n (w : bytes) (kr : keyring) (rmac : bytes) (now : Z) (multi : bool)
+           (section count i0 : Z) (n : nat) (st : rst) : res rst :=
+    match n with
+    | O => Ok st
+    | S n' =>
+        do st' <- get_rr H w kr rmac now multi section count i0 st;
+        get_section_n w kr rmac now multi section count (i0 + 1) n' st'
+    end.
+
+  Lemma get_section_as_n : forall rem w kr rmac now multi section count st,
+    get_section H w kr rmac now multi section count rem st
+    = get_section_n w kr rmac now multi section count (count - Z.of_nat rem) rem st.
+  Proof.
+    induction rem; intros; cbn [get_section get_section_n]; [reflexivity|].
+    destruct (get_rr H w kr rmac now multi section count (count - Z.of_nat (S rem)) st); cbn [bind]; try reflexivity.
+    rewrite IHrem. f_equal. lia.
+  Qed.
+
+  Lemma get_section_n_snoc : forall n w kr rmac now multi section count i0 st,
+    get_section_n w kr rmac now multi section count i0 (n + 1) st
+    = (do st' <- get_section_n w kr rmac now multi section count i0 n st;
+       get_rr H w kr rmac now multi section count (i0 + Z.of_nat n) st').
+  Proof.
+    induction n; intros; cbn [get_section_n Nat.add].
+    - rewrite Z.add_0_r. cbn [bind]. destruct (get_rr H w kr rmac now multi section count i0 st); reflexivity.
+    - destruct (get_rr H w kr rmac now multi section count i0 st); cbn [bind]; try reflexivity.
+      rewrite IHn. replace (i0 + 1 + Z.of_nat n) with (i0 + Z.of_nat (S n)) by lia. reflexivity.
+  Qed.
+
+  (* records before the last one of a section never are the TSIG: context and tsig untouched *)
+  Lemma get_section_n_prefix_keeps : forall n w kr rmac now multi section count i0 st st',
+    i0 + Z.of_nat n <= count - 1 ->
+    get_section_n w kr rmac now multi section count i0 n st = Ok st' ->
+    r_tsig st' = r_tsig st /\ r_ctx st' = r_ctx st.
+  Proof.
+    induction n; intros until st'; intros B E; cbn [get_section_n] in E.
+    - inversion E. auto.
+    - destruct (get_rr H w kr rmac now multi section count i0 st) as [st1| |] eqn:G; cbn [bind] in E; try discriminate.
+      apply get_rr_ok in G as [(ty & cl & _ & _ & T & C) | (_ & IL & _)]; [|lia].
+      apply IHn in E as [T' C']; [|lia]. split; congruence.
+  Qed.
+
+  (* The message `out` that sign_message produced, read back: if the part of `out` before the
+     TSIG RR parses (questions, ANSWER, AUTHORITY and the ADDITIONAL records before the TSIG,
+     ending where the TSIG RR starts), the whole read succeeds, validated, with the signer's
+     follow-up context. *)
+  Lemma read_signed_message_lemma :
+    forall wire k rd now rmac ctx multi out rd' c' now2 fl qd an au ad p s1 s2 s3,
+      sign_message H wire k (kname k) rd now rmac ctx multi = Ok (out, rd', c') ->
+      Valid (kname k) -> Valid (t_alg rd) ->
+      all_bytes wire = true -> (12 <= length wire)%nat ->
+      t_error rd = 0 -> NameM.name_eqb (kalg k) (t_alg rd) = true ->
+      rfc_time_ok now2 now (t_fudge rd) ->
+      (* the header of `out` and the records before the TSIG RR *)
+      get_uint out (length out) 2 2 = Ok fl -> get_uint out (length out) 4 2 = Ok qd ->
+      get_uint out (length out) 6 2 = Ok an -> get_uint out (length out) 8 2 = Ok au ->
+      get_uint out (length out) 10 2 = Ok ad ->
+      ((fst fl / 2048) mod 16 =? 5) = false ->
+      get_question out (Z.to_nat (fst qd)) 12 = Ok p ->
+      get_section H out (KR_Key k) rmac now2 multi 1 (fst an) (Z.to_nat (fst an))
+        {| r_pos := p; r_tsig := None; r_ctx := ctx; r_recs := [] |} = Ok s1 ->
+      get_section H out (KR_Key k) rmac now2 multi 2 (fst au) (Z.to_nat (fst au)) s1 = Ok s2 ->
+      1 <= fst ad ->
+      get_section_n out (KR_Key k) rmac now2 multi 3 (fst ad) 0 (Z.to_nat (fst ad - 1)) s2 = Ok s3 ->
+      r_pos s3 = length wire ->
+      read H out (KR_Key k) rmac ctx multi now2
+      = Ok {| m_had_tsig := true; m_tsig := Some (kname k, rd'); m_ctx := c';
+              m_recs := rev ((3, TSIG, ANY, length wire) :: r_recs s3) |}.
+  Proof.
+    intros until s3. intros SM Vk Va AB L12 Er Al Ti Hfl Hqd Han Hau Had Op Q S1 S2 A1 S3 Pos.
+    assert (LO : (12 <= length out)%nat).
+    { pose proof SM as SM'. apply sign_message_inv in SM' as (_ & ad0 & rr & _ & _ & ->).
+      rewrite !app_length. change (slice wire 0 10) with (firstn 10 wire).
+      rewrite firstn_length_le by lia. rewrite skipn_length. unfold u16. cbn [length]. lia. }
+    (* contexts before the TSIG record *)
+    apply get_section_ok in S1 as S1'. destruct S1' as (n1 & _ & [(_ & T1 & C1) | (Bad & _)]); [|discriminate].
+    apply get_section_ok in S2 as S2'. destruct S2' as (n2 & _ & [(_ & T2 & C2) | (Bad & _)]); [|discriminate].
+    cbn [r_tsig r_ctx] in T1, C1.
+    apply get_section_n_prefix_keeps in S3 as S3'; [|rewrite Z2Nat.id by lia; lia].
+    destruct S3' as (T3 & C3).
+    assert (CX : r_ctx s3 = ctx) by congruence.
+    assert (TX : r_tsig s3 = None) by congruence.
+    (* the last ADDITIONAL record *)
+    pose proof (signed_rr_reads_back_validated_lemma H wire k rd now rmac ctx multi out rd' c' now2 (fst ad) s3
+                  SM Vk Va AB L12 Er Al Ti Pos CX) as LAST.
+    unfold read.
+    destruct (Nat.ltb_spec (length out) 12) as [Bad|_]; [lia|].
+    rewrite Hfl, Hqd, Han, Hau, Had. cbn [bind]. rewrite Op. rewrite Q. cbn [bind].
+    rewrite S1. cbn [bind]. rewrite S2. cbn [bind].
+    rewrite get_section_as_n.
+    replace (Z.to_nat (fst ad)) with (Z.to_nat (fst ad - 1) + 1)%nat by lia.
+    replace (fst ad - Z.of_nat (Z.to_nat (fst ad - 1) + 1)) with 0 by lia.
+    rewrite get_section_n_snoc. rewrite S3. cbn [bind].
+    replace (0 + Z.of_nat (Z.to_nat (fst ad - 1))) with (fst ad - 1) by lia.
+    rewrite LAST. cbn [bind r_pos r_tsig r_ctx r_recs].
+    rewrite Nat.eqb_refl. cbn [negb].
+    destruct c' as [c1|]; [|reflexivity].
+    rewrite andb_false_r. reflexivity.
+  Qed.
+End WholeRead.
